@@ -34,6 +34,59 @@ def item_length_fields(b):
     return out
 
 
+def _append_sub_item(b, sub):
+    """Append a user-information sub-item to an A-ASSOCIATE-RQ/AC whose last item is the user information item."""
+    pos = 74
+    last = None
+    while pos + 4 <= len(b):
+        n = struct.unpack('>H', b[pos + 2:pos + 4])[0]
+        last = pos
+        pos += 4 + n
+    if last is None or b[last] != 0x50 or pos != len(b):
+        return None
+    n = struct.unpack('>H', b[last + 2:last + 4])[0]
+    if n + len(sub) > 0xFFFF:
+        return None
+    out = b[:last + 2] + struct.pack('>H', n + len(sub)) + b[last + 4:] + sub
+    return _set_len(out, len(out) - 6)
+
+
+def sub_item_variants():
+    """(name, bytes) of user-information sub-items: well-formed ones of every kind and ones whose inner length fields
+    disagree with their content."""
+    uid = b'1.2.840.10008.1.1'
+    H = lambda n: struct.pack('>H', n)      # noqa
+    yield 'async-ok', b'\x53\x00' + H(4) + H(1) + H(1)
+    yield 'async-len-ffff', b'\x53\x00' + H(0xFFFF) + H(1) + H(1)
+    yield 'async-len-0', b'\x53\x00' + H(0) + H(1) + H(1)
+    yield 'async-len-6', b'\x53\x00' + H(6) + H(1) + H(1) + b'\0\0'
+    yield 'maxlen-second', b'\x51\x00' + H(4) + struct.pack('>I', 7)
+    yield 'maxlen-len-ffff', b'\x51\x00' + H(0xFFFF) + struct.pack('>I', 4096)
+    yield 'role-ok', b'\x54\x00' + H(2 + len(uid) + 2) + H(len(uid)) + uid + b'\x01\x01'
+    yield 'role-uidlen-over', b'\x54\x00' + H(2 + len(uid) + 2) + H(len(uid) + 40) + uid + b'\x01\x01'
+    yield 'role-uidlen-0', b'\x54\x00' + H(2 + len(uid) + 2) + H(0) + uid + b'\x01\x01'
+    yield 'role-roles-7-9', b'\x54\x00' + H(2 + len(uid) + 2) + H(len(uid)) + uid + b'\x07\x09'
+    yield 'extneg-ok', b'\x56\x00' + H(2 + len(uid) + 3) + H(len(uid)) + uid + b'\x01\x02\x03'
+    yield 'extneg-uidlen-over', b'\x56\x00' + H(2 + len(uid) + 3) + H(len(uid) + 9) + uid + b'\x01\x02\x03'
+    yield 'extneg-empty-info', b'\x56\x00' + H(2 + len(uid)) + H(len(uid)) + uid
+    yield 'identity-userpass', b'\x58\x00' + H(2 + 2 + 4 + 2 + 2) + b'\x02\x01' + H(4) + b'user' + H(2) + b'pw'
+    yield 'identity-user', b'\x58\x00' + H(2 + 2 + 4 + 2) + b'\x01\x00' + H(4) + b'user' + H(0)
+    yield 'identity-primary-over', b'\x58\x00' + H(2 + 2 + 4 + 2) + b'\x01\x00' + H(400) + b'user' + H(0)
+    yield 'identity-secondary-over', b'\x58\x00' + H(2 + 2 + 4 + 2 + 2) + b'\x02\x01' + H(4) + b'user' + H(900) + b'pw'
+    yield 'identity-type-9', b'\x58\x00' + H(2 + 2 + 4 + 2) + b'\x09\x00' + H(4) + b'user' + H(0)
+    yield 'identity-nonascii', b'\x58\x00' + H(2 + 2 + 4 + 2) + b'\x01\x00' + H(4) + b'\xff\xfe\xfd\xfc' + H(0)
+    yield 'identity-ac-in-rq', b'\x59\x00' + H(2 + 3) + H(3) + b'abc'
+    yield 'version-ok', b'\x55\x00' + H(6) + b'VER_10'
+    yield 'version-nonascii', b'\x55\x00' + H(6) + b'VER\xe9_1'
+    yield 'version-empty', b'\x55\x00' + H(0)
+    yield 'classuid-second', b'\x52\x00' + H(5) + b'1.2.3'
+    yield 'classuid-nonascii', b'\x52\x00' + H(5) + b'1.\xe9.3'
+    yield 'unknown-5f', b'\x5f\x00' + H(3) + b'abc'
+    yield 'unknown-5f-empty', b'\x5f\x00' + H(0)
+    yield 'unknown-00', b'\x00\x00' + H(2) + b'zz'
+    yield 'unknown-len-over', b'\x5f\x00' + H(300) + b'abc'
+
+
 def mutators(b, rng):
     """Yield (name, mutated bytes) for one valid PDU b."""
     n = len(b) - 6
@@ -63,6 +116,11 @@ def mutators(b, rng):
                 yield 'item%02x@%d-len-%s' % (it, off, name), b[:off] + struct.pack('>H', val) + b[off + 2:]
             for tb in (0x00, 0x11, 0x5A, 0xFF):
                 yield 'item%02x@%d-type-%02x' % (it, off, tb), b[:off - 2] + bytes([tb]) + b[off - 1:]
+        # further user-information sub-items, well-formed and not (the accepting user echoes what it was indicated)
+        for sname, sub in sub_item_variants():
+            m = _append_sub_item(b, sub)
+            if m is not None:
+                yield 'ui-add-' + sname, m
         # non-ASCII text
         yield 'called-nonascii', b[:10] + b'\xff\xfe' + b[12:]
         yield 'calling-nonascii', b[:26] + b'\xc3\x28' + b[28:]
